@@ -22,18 +22,23 @@ NoDropReplies == {r \in AllReplies : r.cut = NoCut}
 SwitchReplies == {r \in AllReplies : r.start = readCur /\ r.cl \in {"right", "absent"} /\ r.cr = "honest"
                                    /\ r.cut = NoCut}
 
+\* whole-blob replies only: the registry (a confused mirror or cache) serves the stored or the intended
+\* blob completely, with every announcement of its digest (the descriptor-shape x digest-header family)
+HdrReplies == {r \in AllReplies : r.start = readCur /\ r.cut = NoCut /\ r.cr = "honest"
+                                /\ r.cl \in (IF scn.size = 0 THEN {"right", "absent"} ELSE {"absent"})}
+
 RecRet == rets' = IF ret'.seq # ret.seq
                   THEN Append(rets, [op |-> ret'.op, n |-> ret'.n, err |-> ret'.err])
                   ELSE rets
 ReplyRec(kind, r) ==
   LET full == Drop(SrcOf(r.src), r.start)
       body == IF r.cut = NoCut THEN full ELSE Take(full, r.cut)
-  IN [kind |-> kind, src |-> r.src, start |-> r.start, cl |-> r.cl, cr |-> r.cr,
+  IN [kind |-> kind, src |-> r.src, start |-> r.start, cl |-> r.cl, cr |-> r.cr, dh |-> r.dh,
       body |-> body, total |-> Len(SrcOf(r.src)), full |-> Len(full),
       end |-> IF r.cut = NoCut THEN "eof" ELSE "drop",
       range |-> IF RangeReq THEN 1 ELSE 0, off |-> readCur, max |-> readMax,
       ext |-> IF extused THEN 1 ELSE 0]
-NoReply == [src |-> "served", start |-> 0, cl |-> "absent", cr |-> "absent", cut |-> 0]
+NoReply == [src |-> "served", start |-> 0, cl |-> "absent", cr |-> "absent", cut |-> 0, dh |-> "absent"]
 
 GInit == Init /\ calls = <<>> /\ replies = <<>> /\ rets = <<>>
 GNext ==
